@@ -62,6 +62,23 @@ func NewCtx(p *core.Prog, prop, tier string) *Ctx {
 	installPinnedNames(p)
 	c := newCtx(p, prop, tier)
 	curGraph = c.G
+	// call sites inside a detached closure (see closures.go) do not run synchronously
+	c.G.AsyncSite = func(s *core.Site) bool {
+		if s.Call == nil {
+			return false
+		}
+		for cur := p.Parent(s.Call); cur != nil; cur = p.Parent(cur) {
+			switch v := cur.(type) {
+			case *ast.FuncLit:
+				if c.detachedLit(v) {
+					return true
+				}
+			case *ast.FuncDecl:
+				return false
+			}
+		}
+		return false
+	}
 	return c
 }
 
